@@ -8,11 +8,15 @@ package main
 // fragmented frame, in several kinds.  For each run the harness writes the model labels it
 // forced and what it observed (case for coq/run/C11Run.v), and evaluates the property oracles
 // on the implementation's own behaviour.
+// Further families: c11kinds.go / c11real.go (the kind of the failure, through the real wrappers and
+// over the real transports), c11blocked.go (the loss seen first by a Write of the endpoint itself:
+// the "consumer blocked" reply of dispatch), c11many.go (endpoints with many live handlers).
 
 import (
 	"bytes"
 	"fmt"
 	"io"
+	"os"
 	"sort"
 	"strings"
 	"sync/atomic"
@@ -196,8 +200,36 @@ func runC11(res *hx.Result, rng *hx.Rng, tier string, outdir string) {
 		sort.SliceStable(js, func(a, b int) bool { return js[a].f.pos > js[b].f.pos })
 		jobs = append(jobs, js...)
 	}
+	// the loss seen first by a Write of the endpoint itself (c11blocked.go)
+	blocked := c11BlockedScenarios()
+	for si, sc := range blocked {
+		js := c11BlockedJobs(sc, si)
+		for k := range js {
+			js[k].fam = 1
+		}
+		sort.SliceStable(js, func(a, b int) bool { return js[a].f.pos > js[b].f.pos })
+		jobs = append(jobs, js...)
+	}
+	// many live handlers (c11many.go): scenarios of a few dozen handlers, compared with the model
+	manySizes := [][3]int{{3, 12, 8}, {4, 28, 16}}
+	if tier == "thorough" {
+		manySizes = append(manySizes, [3]int{5, 70, 40}, [3]int{6, 100, 50})
+	}
+	var many []c11Scenario
+	for k, z := range manySizes {
+		sc := c11ManyScenario(rng, fmt.Sprintf("many-handlers-%d", z[0]+z[1]+z[2]), z[0], z[1], z[2])
+		many = append(many, sc)
+		npos := 3
+		if k > 0 {
+			npos = 1
+		}
+		jobs = append(jobs, c11ManyJobs(rng, sc, npos)...)
+	}
 	if tier == "thorough" { // every run twice more: the goroutines after the loss are scheduled by the runtime
 		jobs = append(append(append([]c11Job{}, jobs...), jobs...), jobs...)
+	}
+	if os.Getenv("C11_ONLY") != "" { // development aid: only the oracle-only runs over the real transports
+		jobs = nil
 	}
 	obs := make([]*c11Obs, len(jobs))
 	next := int32(-1)
@@ -211,10 +243,10 @@ func runC11(res *hx.Result, rng *hx.Rng, tier string, outdir string) {
 					done <- struct{}{}
 					return
 				}
-				if atomic.LoadInt32(&c11HungFail) >= 3 || atomic.LoadInt32(&c11Hung) >= 24 {
+				if atomic.LoadInt32(&c11HungFail) >= 3 || atomic.LoadInt32(&c11Hung[jobs[k].fam]) >= 24 {
 					continue // enough hung runs: the rest would only wait
 				}
-				obs[k] = c11Exec(jobs[k].sc, jobs[k].f, jobs[k].hold, jobs[k].wrap, hang)
+				obs[k] = c11Exec(jobs[k].sc, jobs[k].f, jobs[k].hold, jobs[k].wrap, jobs[k].fam, hang)
 			}
 		}()
 	}
@@ -224,7 +256,7 @@ func runC11(res *hx.Result, rng *hx.Rng, tier string, outdir string) {
 	cf := hx.NewCases(outdir, "C11", "From QV Require Import ConnLoss C11Run.", "mismatches ccases", res, "ccases", "ccase")
 	cf.Extra = append(cf.Extra, "Definition cfg_observed := cfg0.")
 	var maxLat time.Duration
-	aborted, ops, skipped, same := 0, 0, 0, 0
+	aborted, ops, skipped, same, big := 0, 0, 0, 0, 0
 	seen := map[string]bool{}
 	for k, j := range jobs {
 		o := obs[k]
@@ -258,11 +290,16 @@ func runC11(res *hx.Result, rng *hx.Rng, tier string, outdir string) {
 			res.Fail("c11-oracle", fmt.Sprintf("%s: %s | forced labels: %s", desc, f, strings.Join(o.labels, "; ")))
 		}
 		term := c11CaseTerm(j.sc, o)
-		if j.wrap != "" && seen[term] {
+		if (j.wrap != "" || j.fam == 2) && seen[term] {
 			same++ // forced labels and observations identical to a case already written: nothing new for the model
 			continue
 		}
 		seen[term] = true
+		if j.fam == 2 { // the model takes up to a second on such a case: few of them per shard
+			if big++; j.sc.n+j.sc.m+j.sc.d >= 40 || big%6 == 1 {
+				cf.Flush()
+			}
+		}
 		cf.Add("ccases", term, desc)
 		if k%97 == 0 {
 			res.Sample(desc + " => " + term)
@@ -276,14 +313,15 @@ func runC11(res *hx.Result, rng *hx.Rng, tier string, outdir string) {
 		}
 		c11RealPipe(res, hang, reps)
 		c11RealKinds(res, hang, tier)
+		c11Sessions(res, rng, hang, tier)
 	}
 	res.Exhaustive = skipped == 0
 	if skipped > 0 {
-		res.Notes = append(res.Notes, fmt.Sprintf("%d runs skipped after %d runs hit a deadline", skipped, atomic.LoadInt32(&c11Hung)))
+		res.Notes = append(res.Notes, fmt.Sprintf("%d runs skipped after %d runs hit a deadline", skipped, c11HungTotal()))
 	}
 	res.Notes = append(res.Notes,
-		fmt.Sprintf("%d of the runs through net.ConnStream gave a case term (forced labels + observations) already compared with the model and were not written again", same),
-		fmt.Sprintf("%d scenarios, %d runs, %d stream operations in total; fault injected at every script position, inside every Write and after every fragment of every fragmented frame", len(scs), len(jobs), ops),
+		fmt.Sprintf("%d of the runs (through net.ConnStream, or with many handlers) gave a case term (forced labels + observations) already compared with the model and were not written again", same),
+		fmt.Sprintf("%d scenarios, %d runs, %d stream operations in total; fault injected at every script position, inside every Write and after every fragment of every fragmented frame", len(scs)+len(blocked)+len(many), len(jobs), ops),
 		fmt.Sprintf("wall-clock bound asserted by the oracles: every wait %v; largest latency from loss (or release of the held Close) to a call's return: %v", hang, maxLat),
 		"no defect switch is defined for C11: the pinned code showed no violation")
 }
